@@ -1518,7 +1518,7 @@ Proof. intros W. eapply wf_equiv; [apply equiv_leave_call|exact W]. Qed.
 Lemma wf_room_request h k q : WF h -> WF (fst (room_request h k q)).
 Proof.
   unfold WF. intros W. unfold room_request. destruct (room_of h k) as [r|] eqn:Hr; [|exact W].
-  destruct q as [|users rs|tag|l|l|ic|tag].
+  destruct q as [|users rs|tag|l|l|ic|tag|ok]; [| | | | | | |exact W].
   - (* delete *)
     match goal with |- context [fold_sessions h ?int ?f] => set (internals := int); set (g := f) end.
     destruct (fold_sessions h internals g) as [h0 o0] eqn:H0. pose proof (fst_eq _ _ _ H0) as E0.
@@ -1618,7 +1618,7 @@ Proof.
   unfold WF. intros W. unfold do_api.
   assert (Hpub : forall hh s m, WFg none2 none1 hh -> WFg none2 none1 (publish hh s m)).
   { intros. eapply wf_equiv; [apply equiv_publish|assumption]. }
-  destruct q as [|users rs|tag|l|l|ic|tag]; cbn [fst]; auto.
+  destruct q as [|users rs|tag|l|l|ic|tag|ok]; cbn [fst]; auto.
   - match goal with |- WFg _ _ (fold_left ?f ?l ?h0) => apply (wf_fold_left_hub (WFg none2 none1) f l h0) end.
     + match goal with |- WFg _ _ (fold_left ?f ?l ?h0) => apply (wf_fold_left_hub (WFg none2 none1) f l h0) end; auto.
     + intros hh x Hhh. destruct (aget (h_rs2 hh) (1000000 + x)); auto.
@@ -1626,6 +1626,10 @@ Proof.
     apply Hpub. match goal with |- WFg _ _ (fold_left ?f ?l ?h0) => apply (wf_fold_left_hub (WFg none2 none1) f l h0) end; auto.
     intros hh [[i icv] pm] Hhh. destruct i; auto. destruct pm; auto.
   - match goal with |- context [match ?o with [] => _ | _ => _ end] => destruct o end; cbn [fst]; auto.
+  - (* dial-out *)
+    destruct ok; cbn [negb fst]; [|exact W]. destruct (dialout_session h b) as [sid|]; [|exact W].
+    destruct (send_session h sid (SDialout room)) as [h1 o1] eqn:H1. cbn [fst]. apply Hpub.
+    rewrite (fst_eq _ _ _ H1). now apply wf_send_session.
 Qed.
 
 Lemma wf_do_tick h secs : WF h -> WF (fst (do_tick h secs)).
